@@ -211,7 +211,7 @@ def run(ctx):
                 e = ast.parse(P_.full(n.value, val, depth=8), mode="eval").body
                 if _ext_rec is not None:
                     e = R_.TupleView(prog, _ext_rec[0], _ext_rec[1], lambda b: dotted(b) == "self._extents").visit(e)
-                    e = R_.ctor_to_tuple(prog, f.module, e)
+                    e = R_.ctor_to_tuple(prog, f.module, e, _ext_rec[1])
                     ast.fix_missing_locations(e)
                 out.append(e)
         return out
@@ -341,10 +341,18 @@ def run(ctx):
     if cmc is None:
         raise AnalysisError("anchor vanished: TcRange.contains_merged_cell")
 
-    def span_tests(t, v):
+    def span_tests(t, v, depth=0):
         out = {}
         parts = t.values if isinstance(t, ast.BoolOp) and isinstance(t.op, ast.Or) else [t]
         for e in parts:
+            # a predicate property of the cell (`tc.in_merged_cell`) reads as the expression it returns
+            if isinstance(e, ast.Attribute) and dotted(e.value) == v and e.attr not in SPAN_ATTRS and depth < 3:
+                pr = prog.lookup(tcc, e.attr)
+                if pr is not None and pr.kind in ("property", "lazyproperty"):
+                    rb = [x for x in pr.node.body if not (isinstance(x, ast.Expr) and isinstance(x.value, ast.Constant))]
+                    if len(rb) == 1 and isinstance(rb[0], ast.Return) and rb[0].value is not None:
+                        out.update(span_tests(rb[0].value, "self", depth + 1))
+                        continue
             if isinstance(e, ast.Compare) and (dotted(e.left) or "").startswith(v + ".") and isinstance(e.ops[0], ast.Gt) \
                     and prog.const(e.comparators[0], cmc.module) == 1:
                 out[dotted(e.left).split(".")[1]] = ">1"
